@@ -61,7 +61,8 @@ def gen_probe(src, info):
         a = src.pick(names)
         T = attrs[a]["type"]
         if src.chance(1, 8):
-            return {"t": "call", "m": f"with_{a}", "a": [src.pick([["$unchanged"], ["$missing"]])], "k": k, "form": "noop_value"}
+            verb = src.pick(["with", "with", "update"])  # update_<a>(UNCHANGED): "UNCHANGED make[s] the call a no-op returning the receiver"
+            return {"t": "call", "m": f"{verb}_{a}", "a": [["$unchanged"] if verb == "update" else src.pick([["$unchanged"], ["$missing"]])], "k": k, "form": "noop_value"}
         if T[0] == "spec" and src.chance(1, 2):
             kw = _nested_kw(src, T[1])
             if src.chance(1, 6) and kw:
